@@ -495,8 +495,10 @@ def check_residual_guard(rep: Report, ix):
     store_nodes = {n.lineno: n for n in ast.walk(f.node) if isinstance(n, ast.stmt) and _stores_into(n, "out")}
     res = paths_to(f.node, lambda st: _stores_into(st, "out"), event=event)
     n_paths = 0
+    other_tests: list[str] = []
     for path in res:
         n_paths += 1
+        other_tests.clear()
         env = dict(env0)
         tests = list(path.tests)
         checked = []  # (residual term, atol term, source)
@@ -509,6 +511,13 @@ def check_residual_guard(rep: Report, ix):
                 test, pol = tests.pop(0)
                 if test is not st.test:
                     raise AnalysisError(f"{f.ref}: path bookkeeping lost track of the branch at line {st.lineno}")
+                if not _is_residual_test(test, pol) and not _is_residual_test(test, not pol):
+                    try:
+                        tv = lin.ev(test.left, env) if isinstance(test, ast.Compare) else lin.ev(test, env)
+                    except Exception:  # noqa: BLE001
+                        tv = None
+                    if tv is not None and isinstance(tv, sp.Basic) and M in tv.free_symbols and any(str(x).startswith("X") for x in tv.free_symbols):
+                        other_tests.append(ast.unparse(test)[:80])
                 if _is_residual_test(test, pol):
                     t = test
                     while isinstance(t, ast.UnaryOp):
@@ -521,6 +530,8 @@ def check_residual_guard(rep: Report, ix):
                     checked.append((sp.expand(lin.ev(t.args[0], env) - lin.ev(t.args[1], env)), atol, rtol, ast.unparse(t)))
         store = store_nodes[path.target_line]
         stored = sp.expand(lin.ev(store.value, env))
+        # (a branch decision that looks at matrix*x in some other form -- norms, relative tests ... -- is an idiom this
+        # rule cannot judge: analysis error, not a violation; collected in other_tests above)
         guarded = False
         why = "no residual test `allclose(matrix.dot(x), rhs)` was passed"
         for resid, atol, rtol, src in checked:
@@ -544,6 +555,8 @@ def check_residual_guard(rep: Report, ix):
                 "discrete problem matrix*x + vector = arr, i.e. it depends on the discretisation, and non-solutions of singular problems are accepted on fine grids"
             )
         ok = guarded
+        if not ok and other_tests:
+            raise AnalysisError(f"{f.ref}: the path storing `{ast.unparse(store.value)}` is guarded by `{other_tests[0]}`, a residual test in a form this rule cannot judge")
         rep.oblige(f"solve_poisson:path{n_paths}:stored value passed the residual test of the discrete problem", ok, why if not ok else str(stored))
         if not ok:
             rule = "C18.residual-rescaled" if "multiplied by" in why or "tolerances" in why else "C18.unchecked-result"
